@@ -231,6 +231,9 @@ fn parse_cache(tokens: &[&str]) -> Option<CacheMode> {
 
 type BoxedStore = Box<dyn StorageTraits + Send>;
 
+/// `Storage::open(.., overwrite)`: set by the `newover` command only.
+static OVERWRITE: std::sync::atomic::AtomicBool = std::sync::atomic::AtomicBool::new(false);
+
 async fn open_storage(disk: &Disk) -> Result<Storage, HypercoreError> {
     match disk {
         Disk::Vec(d) => {
@@ -243,7 +246,7 @@ async fn open_storage(disk: &Disk) -> Result<Storage, HypercoreError> {
                     }
                     .boxed()
                 },
-                false,
+                OVERWRITE.load(Ordering::SeqCst),
             )
             .await
         }
@@ -254,7 +257,7 @@ async fn open_storage(disk: &Disk) -> Result<Storage, HypercoreError> {
                     let r = rams[store_idx(&store)].clone();
                     async move { Ok(Box::new(RamStore(r)) as BoxedStore) }.boxed()
                 },
-                false,
+                OVERWRITE.load(Ordering::SeqCst),
             )
             .await
         }
@@ -266,7 +269,7 @@ async fn open_storage(disk: &Disk) -> Result<Storage, HypercoreError> {
                     async move { Ok(Box::new(RandomAccessDisk::open(path).await?) as BoxedStore) }
                         .boxed()
                 },
-                false,
+                OVERWRITE.load(Ordering::SeqCst),
             )
             .await
         }
@@ -444,6 +447,7 @@ impl Server {
             "opcount" => self.cmd_opcount(&t),
             "fail" => self.cmd_fail(&t),
             "new" => self.cmd_new(&t),
+            "newover" => self.cmd_newover(&t),
             "open" => self.cmd_open(&t),
             "openkp" => self.cmd_openkp(&t),
             "drop" => self.cmd_drop(&t),
@@ -464,7 +468,9 @@ impl Server {
             "dec" => cmd_dec(&t),
             "prim" => cmd_prim(&t),
             "ft" => cmd_ft(&t),
+            "ramx" => cmd_ramx(&t),
             "sched" => self.cmd_sched(&t),
+            "schedr" => self.cmd_schedr(&t),
             _ => None,
         };
         one_line(&r.unwrap_or_else(|| "err Protocol".to_string()))
@@ -750,6 +756,15 @@ impl Server {
         self.build(t[1], t[2], Some(kp), false, cache)
     }
 
+    /// `newover C D ROLE [cache=…]`: like `new`, but the storage is opened with `overwrite = true`
+    /// (existing contents of the four stores are discarded before the core is built).
+    fn cmd_newover(&mut self, t: &[&str]) -> Option<String> {
+        OVERWRITE.store(true, Ordering::SeqCst);
+        let r = self.cmd_new(t);
+        OVERWRITE.store(false, Ordering::SeqCst);
+        r
+    }
+
     fn cmd_open(&mut self, t: &[&str]) -> Option<String> {
         if t.len() < 3 {
             return None;
@@ -953,15 +968,51 @@ impl Server {
 
     // ------------------------------------------------------------------ scheduler mode
 
+    /// Optional leading `key=value` tokens of the scheduler commands.
+    fn sched_options<'a>(t: &[&'a str]) -> Option<(u64, Option<&'a str>, Option<&'a str>, usize)> {
+        let (mut slow, mut blocks, mut have, mut k) = (0u64, None, None, 0usize);
+        while k < t.len() {
+            if let Some(v) = t[k].strip_prefix("slow=") {
+                slow = num(v)?;
+                if slow > 100_000 {
+                    return None;
+                }
+            } else if let Some(v) = t[k].strip_prefix("blocks=") {
+                blocks = Some(v);
+            } else if let Some(v) = t[k].strip_prefix("have=") {
+                have = Some(v);
+            } else {
+                break;
+            }
+            k += 1;
+        }
+        Some((slow, blocks, have, k))
+    }
+
+    fn sched_finish(&mut self, r: Result<Result<String, String>, String>) -> String {
+        match r {
+            Ok(Ok(s)) => s,
+            Ok(Err(s)) => s,
+            Err(p) => {
+                self.rt = new_runtime();
+                format!("panic {p}")
+            }
+        }
+    }
+
     fn cmd_sched(&mut self, t: &[&str]) -> Option<String> {
-        // sched D SEED NT task1 | task2 | ...
+        // sched D SEED NT [slow=MICROS] task1 | task2 | ...
         if t.len() < 4 || !valid_name(t[1]) {
             return None;
         }
         let seed = num(t[2])?;
         let nt = num(t[3])? as usize;
-        let rest = t[4..].join(" ");
-        let tasks = sched::parse_tasks(&rest, nt)?;
+        let (slow, blocks, have, k) = Self::sched_options(&t[4..])?;
+        if blocks.is_some() || have.is_some() {
+            return None;
+        }
+        let rest = t[4 + k..].join(" ");
+        let tasks = sched::parse_tasks(&rest, nt, 0)?;
         let shared: SharedDisk = Arc::new(Mutex::new(DiskState::new()));
         let disk = Disk::Vec(shared.clone());
         self.disks.insert(t[1].to_string(), disk.clone());
@@ -977,13 +1028,112 @@ impl Server {
                 Ok(Ok(core)) => core,
             };
         lock(&shared).yield_mode = true;
-        let r = guarded(move || sched::run(core, seed, tasks));
+        let sd = shared.clone();
+        let r = guarded(move || sched::run(core, &sd, seed, tasks, Vec::new(), slow));
         lock(&shared).yield_mode = false;
-        Some(match r {
-            Ok(Ok(s)) => s,
-            Ok(Err(s)) => s,
-            Err(p) => format!("panic {p}"),
-        })
+        Some(self.sched_finish(r))
+    }
+
+    fn cmd_schedr(&mut self, t: &[&str]) -> Option<String> {
+        // schedr D SEED NT blocks=HEX,HEX,... [have=I,J,...] [slow=MICROS] task1 | task2 | ...
+        if t.len() < 5 || !valid_name(t[1]) {
+            return None;
+        }
+        let seed = num(t[2])?;
+        let nt = num(t[3])? as usize;
+        let (slow, blocks, have, k) = Self::sched_options(&t[4..])?;
+        let blocks: Vec<Vec<u8>> = blocks?.split(',').map(unhex).collect::<Option<_>>()?;
+        if blocks.is_empty() || blocks.len() > 4096 {
+            return None;
+        }
+        let n = blocks.len() as u64;
+        let have: Vec<u64> = match have {
+            None | Some("_") => Vec::new(),
+            Some(h) => h.split(',').map(num).collect::<Option<_>>()?,
+        };
+        if have.iter().any(|i| *i >= n) {
+            return None;
+        }
+        let rest = t[4 + k..].join(" ");
+        let tasks = sched::parse_tasks(&rest, nt, n)?;
+
+        let shared: SharedDisk = Arc::new(Mutex::new(DiskState::new()));
+        let disk = Disk::Vec(shared.clone());
+        self.disks.insert(t[1].to_string(), disk.clone());
+        let scratch = Disk::Vec(Arc::new(Mutex::new(DiskState::new())));
+        let rt = &self.rt;
+        let wkp = role_key_pair("writer")?;
+        let rkp = role_key_pair("replica")?;
+
+        // Sequential set-up (no preemption): writer with the blocks, replica at the writer's
+        // length by ONE upgrade-only proof, one self-contained proof per block (its `nodes` =
+        // what the replica misses while it holds no block at all: every sibling up to a root),
+        // then the blocks of `have=` applied.
+        let setup = guarded(|| {
+            rt.block_on(async {
+                let fail = |what: &str, e: &HypercoreError| {
+                    format!("err SchedSetup {} {}", what, err_name(e))
+                };
+                let mut writer = build_core(&scratch, Some(wkp), false, CacheMode::Off)
+                    .await
+                    .map_err(|e| fail("writer", &e))?;
+                writer
+                    .append_batch(&blocks)
+                    .await
+                    .map_err(|e| fail("append", &e))?;
+                let mut replica = build_core(&disk, Some(rkp), false, CacheMode::Off)
+                    .await
+                    .map_err(|e| fail("replica", &e))?;
+                let up = writer
+                    .create_proof(None, None, None, Some(RequestUpgrade { start: 0, length: n }))
+                    .await
+                    .map_err(|e| fail("upgrade-proof", &e))?
+                    .ok_or_else(|| "err SchedSetup upgrade-proof none".to_string())?;
+                match replica.verify_and_apply_proof(&up).await {
+                    Ok(true) => {}
+                    Ok(false) => return Err("err SchedSetup upgrade-apply false".to_string()),
+                    Err(e) => return Err(fail("upgrade-apply", &e)),
+                }
+                let mut proofs = Vec::with_capacity(blocks.len());
+                for i in 0..n {
+                    let nodes = replica
+                        .missing_nodes(i)
+                        .await
+                        .map_err(|e| fail("missing", &e))?;
+                    let p = writer
+                        .create_proof(Some(RequestBlock { index: i, nodes }), None, None, None)
+                        .await
+                        .map_err(|e| fail("block-proof", &e))?
+                        .ok_or_else(|| "err SchedSetup block-proof none".to_string())?;
+                    proofs.push(p);
+                }
+                for i in &have {
+                    match replica.verify_and_apply_proof(&proofs[*i as usize]).await {
+                        Ok(true) => {}
+                        Ok(false) => return Err("err SchedSetup have-apply false".to_string()),
+                        Err(e) => return Err(fail("have-apply", &e)),
+                    }
+                }
+                let info = replica.info();
+                if info.length != n || info.writeable {
+                    return Err("err SchedSetup replica-info".to_string());
+                }
+                Ok((replica, proofs))
+            })
+        });
+        let (replica, proofs) = match setup {
+            Err(p) => {
+                self.rt = new_runtime();
+                return Some(format!("panic {p}"));
+            }
+            Ok(Err(s)) => return Some(s),
+            Ok(Ok(x)) => x,
+        };
+        lock(&shared).yield_mode = true;
+        let sd = shared.clone();
+        let r = guarded(move || sched::run(replica, &sd, seed, tasks, proofs, slow));
+        lock(&shared).yield_mode = false;
+        Some(self.sched_finish(r))
     }
 }
 
@@ -1171,6 +1321,79 @@ fn cmd_prim(t: &[&str]) -> Option<String> {
         }
         _ => return None,
     };
+    Some(r.unwrap_or_else(|p| format!("panic {p}")))
+}
+
+/// `ramx PAGE_SIZE op op …` — runs the operations on a fresh `RandomAccessMemory::new(PAGE_SIZE)` (the dependency
+/// crate itself, not /repo) and answers `ok obs obs … | CONTENT`; ops: `w:OFF:HEX`, `r:OFF:N`, `d:OFF:N`, `t:N`, `l`.
+fn cmd_ramx(t: &[&str]) -> Option<String> {
+    if t.len() < 2 {
+        return None;
+    }
+    let ps = num(t[1])? as usize;
+    if ps == 0 {
+        return None;
+    }
+    enum Op {
+        W(u64, Vec<u8>),
+        R(u64, u64),
+        D(u64, u64),
+        T(u64),
+        L,
+    }
+    let mut ops = Vec::new();
+    for o in &t[2..] {
+        let f: Vec<&str> = o.split(':').collect();
+        ops.push(match (f[0], f.len()) {
+            ("w", 3) => Op::W(num(f[1])?, unhex(f[2])?),
+            ("r", 3) => Op::R(num(f[1])?, num(f[2])?),
+            ("d", 3) => Op::D(num(f[1])?, num(f[2])?),
+            ("t", 2) => Op::T(num(f[1])?),
+            ("l", 1) => Op::L,
+            _ => return None,
+        });
+    }
+    let r = guarded(move || {
+        futures::executor::block_on(async move {
+            let mut ram = RandomAccessMemory::new(ps);
+            let mut out = String::from("ok");
+            for o in ops {
+                let s = match o {
+                    Op::W(off, data) => match ram.write(off, &data).await {
+                        Ok(()) => "done".to_string(),
+                        Err(RandomAccessError::OutOfBounds { .. }) => "oob".to_string(),
+                        Err(_) => "io".to_string(),
+                    },
+                    Op::R(off, n) => match ram.read(off, n).await {
+                        Ok(v) => format!("b:{}", hex(&v)),
+                        Err(RandomAccessError::OutOfBounds { .. }) => "oob".to_string(),
+                        Err(_) => "io".to_string(),
+                    },
+                    Op::D(off, n) => match ram.del(off, n).await {
+                        Ok(()) => "done".to_string(),
+                        Err(RandomAccessError::OutOfBounds { .. }) => "oob".to_string(),
+                        Err(_) => "io".to_string(),
+                    },
+                    Op::T(n) => match ram.truncate(n).await {
+                        Ok(()) => "done".to_string(),
+                        Err(RandomAccessError::OutOfBounds { .. }) => "oob".to_string(),
+                        Err(_) => "io".to_string(),
+                    },
+                    Op::L => match ram.len().await {
+                        Ok(n) => format!("n:{n}"),
+                        Err(_) => "io".to_string(),
+                    },
+                };
+                out.push(' ');
+                out.push_str(&s);
+            }
+            let n = ram.len().await.unwrap_or(0);
+            let content = ram.read(0, n).await.unwrap_or_default();
+            out.push_str(" | ");
+            out.push_str(&hex(&content));
+            out
+        })
+    });
     Some(r.unwrap_or_else(|p| format!("panic {p}")))
 }
 
